@@ -24,6 +24,7 @@ mutual
 def texts : Tree → List Nat
   | .text m => [m]
   | .elem _ ks => textsL ks
+  | .uni _ ks => textsL ks
 def textsL : List Tree → List Nat
   | [] => []
   | t :: ts => texts t ++ textsL ts
@@ -34,6 +35,7 @@ mutual
 def body (split : Int) : Tree → List Nat
   | .text m => [m]
   | .elem a ks => if isUnit split a || a.foot then [] else bodyL split ks
+  | .uni _ _ => []         -- printed as its unicode equivalent: no text markers of its own
 def bodyL (split : Int) : List Tree → List Nat
   | [] => []
   | t :: ts => body split t ++ bodyL split ts
@@ -46,6 +48,7 @@ mutual
 def foot (split : Int) : Tree → List Nat
   | .text _ => []
   | .elem a ks => if isUnit split a then [] else if a.foot then footL split ks ++ bodyL split ks else footL split ks
+  | .uni a ks => if isUnit split a then [] else footL split ks
 def footL (split : Int) : List Tree → List Nat
   | [] => []
   | t :: ts => foot split t ++ footL split ts
@@ -64,6 +67,8 @@ def units (split : Int) : Tree → List Unit
   | .text _ => []
   | .elem a ks =>
     if isUnit split a then ⟨a, bodyL split ks, footL split ks⟩ :: unitsL split ks else unitsL split ks
+  | .uni a ks =>         -- (a name is requested for it like for any element; `wf` excludes it from the domain)
+    if isUnit split a then ⟨a, bodyL split ks, footL split ks⟩ :: unitsL split ks else unitsL split ks
 def unitsL (split : Int) : List Tree → List Unit
   | [] => []
   | t :: ts => units split t ++ unitsL split ts
@@ -75,6 +80,7 @@ mutual
 def owners (split : Int) (cur : Nat) : Tree → List (Nat × Nat)
   | .text m => [(m, cur)]
   | .elem a ks => ownersL split (if isUnit split a then a.tag else cur) ks
+  | .uni a ks => ownersL split (if isUnit split a then a.tag else cur) ks
 def ownersL (split : Int) (cur : Nat) : List Tree → List (Nat × Nat)
   | [] => []
   | t :: ts => owners split cur t ++ ownersL split cur ts
@@ -82,10 +88,12 @@ end
 
 mutual
 /-- well-formed for the property: a footnote is not itself a sectioning unit (footnotes may be nested and may
-    even contain units) -/
+    even contain units), and a node printed as its unicode equivalent (`uni`) is a leaf that is neither a unit nor
+    a footnote -/
 def wf (split : Int) : Tree → Bool
   | .text _ => true
   | .elem a ks => !(isUnit split a && a.foot) && wfL split ks
+  | .uni a ks => !isUnit split a && !a.foot && ks.isEmpty     -- a leaf that is neither a unit nor a footnote
 def wfL (split : Int) : List Tree → Bool
   | [] => true
   | t :: ts => wf split t && wfL split ts
@@ -96,6 +104,7 @@ mutual
 def footFree (split : Int) (inFoot : Bool) : Tree → Bool
   | .text _ => true
   | .elem a ks => !(inFoot && isUnit split a) && footFreeL split (inFoot || a.foot) ks
+  | .uni a ks => !(inFoot && isUnit split a) && footFreeL split (inFoot || a.foot) ks
 def footFreeL (split : Int) (inFoot : Bool) : List Tree → Bool
   | [] => true
   | t :: ts => footFree split inFoot t && footFreeL split inFoot ts
@@ -105,6 +114,7 @@ end
 def isDocRoot : Tree → Bool
   | .text _ => false
   | .elem a _ => a.level == DOCUMENT_LEVEL
+  | .uni a _ => a.level == DOCUMENT_LEVEL
 
 /-- the generator's answers to a sequence of requests -/
 def run {σ ν} (g : Gen σ ν) : σ → List Req → Except Err (List ν × σ)
